@@ -182,7 +182,7 @@ class Freshness:
     # ------------------------------------------------------------ summaries
     def summary(self, fi: FuncInfo) -> AV:
         """Abstract value returned by fi (join over its return statements)."""
-        q = fi.qualname
+        q = fi.qualname + ("#copy=False" if getattr(self, "_copy_false", False) else "")
         if q in self._summaries:
             return self._summaries[q]
         if q in self._in_progress:
@@ -446,7 +446,9 @@ class Freshness:
             # `copy`-controlled stores: the documented copy=False contract is exempt; evaluate the default branch
             kind = self._copy_test(fi, e.test, at)
             if kind == "contract":
-                return ev(e.body)
+                # a call site that passes copy=False explicitly gets the other branch: what a *getter* hands out then is
+                # the stored object itself
+                return ev(e.orelse) if getattr(self, "_copy_false", False) else ev(e.body)
             if kind is not None and isinstance(e.orelse, ast.Name) and e.orelse.id == kind:
                 # `x.copy() if copy and isinstance(x, np.ndarray) else x`: with copy=True the else branch is reached
                 # only for values that are not arrays (nothing to share)
@@ -660,7 +662,25 @@ class Freshness:
                     else:
                         vals.append(AV(a.kind, a.owner, a.elems, why=f"{t.name}() returns its argument uncopied"))
                 else:
-                    vals.append(self.summary(t))
+                    cf = next((k.value for k in e.keywords if k.arg == "copy"), None)
+                    if cf is None and "copy" in t.params:
+                        ps_ = [p for p in t.params if p not in ("self", "cls")]
+                        i_ = ps_.index("copy")
+                        cf = e.args[i_] if i_ < len(e.args) else None
+                    if isinstance(cf, ast.Constant) and cf.value is False and "copy" in t.params:
+                        saved = getattr(self, "_copy_false", False)
+                        self._copy_false = True
+                        try:
+                            vals.append(self.summary(t))
+                        finally:
+                            self._copy_false = saved
+                    else:
+                        saved = getattr(self, "_copy_false", False)
+                        self._copy_false = False
+                        try:
+                            vals.append(self.summary(t))
+                        finally:
+                            self._copy_false = saved
             return join(vals)
         for t in targets:
             if isinstance(t, ClassInfo):
@@ -805,3 +825,41 @@ def inputs_untouched_rule(ctx: Context, R, rule: str, funcs, what: str, allowed=
                 msg=(f"{fi.short}: `{ast.unparse(hits[0][0].stmt)[:60]}` writes in place into `{hits[0][1]}`, which is (a view / alias of) an array the caller passed in: "
                      f"{what}") if hits else "", key=f"caller-array-write:{fi.short}")
     R.floor(rule, "functions checked for writes into caller-owned arrays", n, min_funcs)
+
+
+def attr_alias_writes(ctx: Context, cls: ClassInfo):
+    """Attributes of `cls` that are written in place by its methods (`self.a[idx] = ...`, `self.a += ...`, out=self.a)
+    although some binding `self.a = E` may leave them aliasing an array the caller passed in:
+    [(binding method, binding statement, attribute, in-place statement)]."""
+    F = Freshness(ctx)
+    inplace: Dict[str, ast.stmt] = {}
+    for m in cls.methods.values():
+        for st in ast.walk(m.node):
+            tgs = []
+            if isinstance(st, ast.Assign):
+                tgs = [x for t in st.targets for x in (t.elts if isinstance(t, (ast.Tuple, ast.List)) else [t])]
+            elif isinstance(st, ast.AugAssign):
+                tgs = [st.target]
+            for t in tgs:
+                b = t
+                sub = False
+                while isinstance(b, ast.Subscript):
+                    b = b.value
+                    sub = True
+                if isinstance(b, ast.Attribute) and isinstance(b.value, ast.Name) and b.value.id == "self" and (sub or isinstance(st, ast.AugAssign)):
+                    # `self.a = self.a + x` re-binds; `self.a[i] = x` / `self.a += x` (arrays) write in place
+                    inplace.setdefault(b.attr, st)
+    out = []
+    if not inplace:
+        return out
+    for m in cls.methods.values():
+        flow = flow_of(m.node)
+        for nd in flow.cfg.stmt_nodes():
+            if nd.kind != "stmt" or not isinstance(nd.stmt, ast.Assign) or len(nd.stmt.targets) != 1:
+                continue
+            t = nd.stmt.targets[0]
+            if isinstance(t, ast.Attribute) and isinstance(t.value, ast.Name) and t.value.id == "self" and t.attr in inplace:
+                v = F.eval(m, nd.stmt.value, nd)
+                if v.kind == "arr" and v.owner == "param" or (v.kind in ("arr", "cont") and any(b_.kind == "arr" for b_ in v.bad_nodes(("param",))) and v.kind == "arr"):
+                    out.append((m, nd.stmt, t.attr, inplace[t.attr]))
+    return out
